@@ -195,6 +195,34 @@ end Grol.E
 
 namespace Grol.E
 
+theorem post_finishCall {st : St} (hI : Inv st) (f : FuncVal) (args : List Obj) {curState : Nat}
+    (hcur : curState < st.frames.size) (before after : Nat) (cantCache : Bool) {res : Obj}
+    (hres : okObj st.frames.size res = true) (output : List UInt8) :
+    Post (finishCall f args curState before after cantCache res output) st OkO := by
+  unfold finishCall
+  extract_lets jp2 jp
+  have hjp2 : ∀ s', Inv s' → st.frames.size ≤ s'.frames.size → Post (jp2 ()) s' OkO := by
+    intro s' hIs' hle'
+    unfold jp2
+    exact Post.pure hIs' (okObj_mono hle' _ hres)
+  have hjp : ∀ s', Inv s' → st.frames.size ≤ s'.frames.size → Post (jp ()) s' OkO := by
+    intro s' hIs' hle'
+    have hres' : okObj s'.frames.size res = true := okObj_mono hle' _ hres
+    unfold jp
+    refine Post.ite (fun _ => ?_) (fun _ => ?_)
+    · refine Post.ite (fun _ => ?_) (fun _ => hjp2 s' hIs' hle')
+      refine Post.bind (post_triggerNoCache hIs' (by omega)) ?_
+      intro _ s'' hIs'' hle'' _
+      exact hjp2 s'' hIs'' (by omega)
+    · refine Post.ite (fun _ => Post.pure hIs' hres') (fun _ => ?_)
+      refine Post.bind (post_cacheSet hIs' f.key args hres' output) ?_
+      intro _ s'' hIs'' hle'' _
+      exact Post.pure hIs'' (okObj_mono hle'' _ hres')
+  refine Post.ite (fun _ => ?_) (fun _ => hjp st hI (Nat.le_refl _))
+  refine Post.bind (post_writeOut hI output) ?_
+  intro _ s5 hI5 hle5 _
+  exact hjp s5 hI5 hle5
+
 theorem post_newFrame {st : St} (hI : Inv st) {nf : Frame}
     (ho : ∀ o, nf.outer = some o → o < st.frames.size ∧ ∀ fo, st.frames[o]? = some fo → fo.depth < nf.depth)
     (hf : ∀ fn, nf.function = some fn → fn.env < st.frames.size)
